@@ -26,7 +26,7 @@ var Vals = [][]byte{nil, {}, []byte("x"), []byte("yy")}
 
 // Patterns: the subset on which gobwas/glob (no separators) and Redis MATCH agree.
 // The last four use backslash escapes (\\ = a literal backslash, \x = the literal character x), no other glob syntax.
-var Patterns = []string{"*", "?", "a*", "*b", "a?", "[ab]", "[a-c]*", "k1", "a/b", "a/*", "??", "zz*", "*/*", "[k]1", `c\\d`, `a\/b`, `c\d`, `c\\*`, "a%*", "*%*", "v%d"}
+var Patterns = []string{"*", "?", "a*", "*b", "a?", "[ab]", "[a-c]*", "k1", "a/b", "a/*", "??", "zz*", "*/*", "[k]1", `c\\d`, `a\/b`, `c\d`, `c\\*`, "a%*", "*%*", "v%d", "f*", "f?[0-4]?"}
 
 // Expiry codes: offset from "now" at the time of the write. 0 = no expiry.
 var ExpOffsets = []time.Duration{0, time.Hour, 3 * time.Hour, 100 * time.Hour, -time.Hour, 0, -time.Hour}
@@ -55,6 +55,7 @@ type SOp struct {
 	Pat  int    `json:"pat,omitempty"`
 	Pat2 int    `json:"pat2,omitempty"` // list: 1+index of a second pattern listed right after the first, before either iterator is read (0 = single listing)
 	Min  int    `json:"min,omitempty"`  // advance: minutes
+	N    int    `json:"n,omitempty"`    // fill: that many fresh keys ("f000", "f001", ...) are written in one PutMany with value Val and expiry Exp: the store grows
 }
 
 // SCase is a sequential case.
@@ -76,6 +77,8 @@ func (o SOp) String() string {
 		return fmt.Sprintf("getmany(%v)", keyNames(o.Keys))
 	case "putmany":
 		return fmt.Sprintf("putmany(%v,vals%v,exps%v)", keyNames(o.Keys), o.Vals, o.Exps)
+	case "fill":
+		return fmt.Sprintf("fill(%d fresh keys,val%d,exp%d)", o.N, o.Val, o.Exp)
 	case "list":
 		if o.Pat2 > 0 {
 			return fmt.Sprintf("list(%q)+list(%q) read in reverse order", Patterns[o.Pat], Patterns[o.Pat2-1])
@@ -396,6 +399,7 @@ func runSeq(c SCase, drivers []*Driver, info *Info) *vstat.Violation {
 		d.reset()
 	}
 	ctx := context.Background()
+	fillCtr := 0
 	expiredUntouched := map[string]bool{} // keys whose expiry was crossed and that no op has touched since
 	touch := func(kind, key string) {
 		if expiredUntouched[key] {
@@ -539,8 +543,23 @@ func runSeq(c SCase, drivers []*Driver, info *Info) *vstat.Violation {
 					}
 				}
 			}
-		case "putmany":
-			keys := keyNames(op.Keys)
+		case "putmany", "fill":
+			keys, vals, expc := keyNames(op.Keys), op.Vals, op.Exps
+			if op.K == "fill" {
+				keys, vals, expc = nil, nil, nil
+				for j := 0; j < op.N; j++ {
+					keys = append(keys, fmt.Sprintf("f%03d", fillCtr))
+					fillCtr++
+					vals, expc = append(vals, op.Val), append(expc, op.Exp)
+				}
+				info.class("fill_with_fresh_keys")
+				if len(m.recs)+op.N >= 64 {
+					info.class("store_of_64_or_more_keys")
+				}
+				if len(m.recs)+op.N >= 256 {
+					info.class("store_of_256_or_more_keys")
+				}
+			}
 			final := map[string]*mrec{}
 			finalExp := map[string]int{}
 			for j, k := range keys {
@@ -549,8 +568,8 @@ func runSeq(c SCase, drivers []*Driver, info *Info) *vstat.Violation {
 					info.HitExisting = true
 					info.class("putmany_overwrite")
 				}
-				final[k] = m.write(k, Vals[op.Vals[j]], op.Exps[j])
-				finalExp[k] = op.Exps[j]
+				final[k] = m.write(k, Vals[vals[j]], expc[j])
+				finalExp[k] = expc[j]
 			}
 			if len(keys) == 0 {
 				info.class("putmany_no_records")
@@ -562,9 +581,9 @@ func runSeq(c SCase, drivers []*Driver, info *Info) *vstat.Violation {
 				recs := make([]kvs.Record, len(keys))
 				exps := map[string]*time.Time{}
 				for j, k := range keys {
-					e := d.expiry(m, op.Exps[j])
+					e := d.expiry(m, expc[j])
 					exps[k] = e
-					recs[j] = kvs.Record{Key: k, Value: cp(Vals[op.Vals[j]]), Version: d.verArg(k, 0), ExpiresAt: e}
+					recs[j] = kvs.Record{Key: k, Value: cp(Vals[vals[j]]), Version: d.verArg(k, 0), ExpiresAt: e}
 				}
 				if err := d.St.PutMany(ctx, recs); err != nil {
 					return vstat.V(d.Name+":putmany-error", "%s: PutMany failed: %s", where, errName(err))
@@ -687,7 +706,11 @@ func runSeq(c SCase, drivers []*Driver, info *Info) *vstat.Violation {
 			}
 			wants := make([][]string, len(pats))
 			for pi, pat := range pats {
-				for _, k := range Keys {
+				all := append([]string(nil), Keys...)
+				for j := 0; j < fillCtr; j++ {
+					all = append(all, fmt.Sprintf("f%03d", j))
+				}
+				for _, k := range all {
 					if expiredUntouched[k] && globMatch(pat, k) {
 						touch("list", k)
 					}
